@@ -74,6 +74,45 @@ impl Gen {
         }
     }
 
+    /// the entries of ANOTHER container to compare with: the given ones, most of the time with
+    /// one small difference (a value, a key, one entry less or more), in an unrelated order
+    pub fn other_of(&mut self, mine: &[(Cls, u8)], is_map: bool) -> Vec<(Cls, u8)> {
+        let mut b: Vec<(Cls, u8)> = mine.to_vec();
+        let absent = |b: &[(Cls, u8)], rng: &mut StdRng, classes: Cls| -> Option<Cls> {
+            (0..16).map(|_| rng.gen_range(0..classes)).find(|c| !b.iter().any(|e| e.0 == *c))
+        };
+        match self.rng.gen_range(0..10) {
+            0..=3 => {}
+            4 | 5 if is_map && !b.is_empty() => {
+                let i = self.rng.gen_range(0..b.len());
+                b[i].1 = (b[i].1 + 1) % self.vals.max(2);
+            }
+            6 | 7 if !b.is_empty() => {
+                let i = self.rng.gen_range(0..b.len());
+                if let Some(c) = absent(&b, &mut self.rng, self.classes) {
+                    b[i].0 = c;
+                }
+            }
+            8 if !b.is_empty() => {
+                let i = self.rng.gen_range(0..b.len());
+                b.remove(i);
+            }
+            _ => {
+                if let Some(c) = absent(&b, &mut self.rng, self.classes) {
+                    b.push((c, 0));
+                }
+            }
+        }
+        if !b.is_empty() {
+            let r = self.rng.gen_range(0..b.len());
+            b.rotate_left(r);
+            if self.rng.gen_bool(0.5) {
+                b.reverse();
+            }
+        }
+        b
+    }
+
     pub fn map_op(&mut self, present: &[Cls], cap: usize) -> Value {
         let len = present.len();
         // large containers: fill them up first (mostly fresh keys), then stay near the top
@@ -114,6 +153,9 @@ impl Gen {
             let unchecked = distinct && self.rng.gen_bool(0.4);
             return json!({"name": "disjoint", "ks": ks, "w": self.w(), "unchecked": unchecked});
         }
+        if self.rng.gen_bool(0.04) {
+            return json!({"name": "eq_other"});
+        }
         let mut x = self.rng.gen_range(0..100);
         if cap > 16 && (x == 62 || x == 63 || (64..=79).contains(&x)) && self.rng.gen_bool(0.9) {
             x = 40; // large containers: emptying calls (clear, drop, drain, consuming cursors) only rarely
@@ -137,6 +179,7 @@ impl Gen {
             }
             58..=61 => json!({"name": "retain", "keep": self.keep(present), "w": self.w()}),
             62 if cap <= 16 || self.rng.gen_bool(0.1) => json!({"name": "clear"}),
+            62 if self.rng.gen_bool(0.5) => json!({"name": "eq_other"}),
             62 => json!({"name": "eq_clone"}),
             63 => json!({"name": "drop"}),
             64..=67 => {
@@ -188,7 +231,7 @@ impl Gen {
             return json!({"name": "s_insert", "k": {"kt": ARG + 1, "c": c, "r": 0}});
         }
         if _cap > 16 && self.rng.gen_bool(0.15) {
-            return json!({"name": "s_eq_clone"});
+            return json!({"name": if self.rng.gen_bool(0.5) { "s_eq_other" } else { "s_eq_clone" }});
         }
         if self.rng.gen_bool(if _cap > 16 { 0.15 } else { 0.06 }) {
             // the container against a second set: a random part of it plus a few foreign elements
@@ -201,6 +244,9 @@ impl Gen {
             }
             let kind = ["union", "intersection", "difference", "symmetric_difference"][self.rng.gen_range(0..4)];
             return json!({"name": "s_algebra", "kind": kind, "b": b});
+        }
+        if self.rng.gen_bool(0.04) {
+            return json!({"name": "s_eq_other"});
         }
         let mut x = self.rng.gen_range(0..100);
         if _cap > 16 && ((65..=72).contains(&x) || (83..=88).contains(&x)) && self.rng.gen_bool(0.9) {
@@ -221,6 +267,7 @@ impl Gen {
             }
             60..=64 => json!({"name": "s_retain", "keep": self.keep(present)}),
             65 if _cap <= 16 || self.rng.gen_bool(0.1) => json!({"name": "s_clear"}),
+            65 if self.rng.gen_bool(0.5) => json!({"name": "s_eq_other"}),
             65 => json!({"name": "s_eq_clone"}),
             66 => json!({"name": "s_drop"}),
             67..=72 => {
@@ -314,6 +361,10 @@ fn run_map<const N: usize>(g: &mut Gen, steps: usize, out: &mut impl Write) -> (
         let pre = observe_map(&cage.m);
         let present: Vec<Cls> = pre.iter().map(|(k, _)| k.class).collect();
         let mut op = g.map_op(&present, N);
+        if op["name"] == "eq_other" {
+            let mine: Vec<(Cls, u8)> = pre.iter().map(|(k, v)| (k.class, v.content)).collect();
+            op["b"] = g.other_of(&mine, true).iter().map(|(c, v)| json!([c, v])).collect();
+        }
         let mut ctx = Ctx::new(false);
         for (idx, (k, v)) in pre.iter().enumerate() {
             ctx.tags.bind_k(idx as i64 + 1, k.serial);
@@ -397,7 +448,11 @@ fn run_set<const N: usize>(g: &mut Gen, steps: usize, out: &mut impl Write) -> (
     for _ in 0..steps {
         let pre = observe_set(&cage.m);
         let present: Vec<Cls> = pre.iter().map(|k| k.class).collect();
-        let op = g.set_op(&present, N);
+        let mut op = g.set_op(&present, N);
+        if op["name"] == "s_eq_other" {
+            let mine: Vec<(Cls, u8)> = pre.iter().map(|k| (k.class, 0)).collect();
+            op["b"] = g.other_of(&mine, false).iter().map(|(c, v)| json!([c, v])).collect();
+        }
         let mut ctx = Ctx::new(true);
         for (idx, k) in pre.iter().enumerate() {
             ctx.tags.bind_k(idx as i64 + 1, k.serial);
